@@ -308,10 +308,12 @@ pub fn run(cfg: &SimConfig) -> anyhow::Result<(Vec<Value>, Value)> {
         for i in 0..n {
             let v = &validators[i];
             if cfg.byz.contains(&i) {
-                // Byzantine validator: the harness plays it; it only listens on all2all
+                // Byzantine validator: the harness plays it; it listens on all2all and can send shreds
                 let net: SimNet<ConsensusMessage, ConsensusMessage> =
                     SimNet::join(&hub, i, &bus_a2a, &bus_a2a, v.all2all_address, Some(tap.clone()));
-                byz_inboxes.push((i, net));
+                let snet: SimNet<Shred, Shred> =
+                    SimNet::join(&hub, i, &bus_shred, &bus_shred, v.disseminator_address, None);
+                byz_inboxes.push((i, net, snet));
                 pools.push(None);
                 continue;
             }
@@ -350,19 +352,86 @@ pub fn run(cfg: &SimConfig) -> anyhow::Result<(Vec<Value>, Value)> {
         }
 
         // Byzantine players
-        for (i, net) in byz_inboxes {
+        for (i, net, snet) in byz_inboxes {
             let mode = cfg.byz_mode.clone();
             let sk = voting_sks[i].clone();
+            let leader_sk = sks[i].clone();
+            let shred_addrs: Vec<(usize, SocketAddr)> = validators
+                .iter()
+                .enumerate()
+                .filter(|(j, _)| *j != i)
+                .map(|(j, v)| (j, v.disseminator_address))
+                .collect();
+            let nval = n as u64;
+            let names3 = names.clone();
             let addrs: Vec<SocketAddr> = validators.iter().map(|v| v.all2all_address).collect();
             let seed = cfg.seed;
             tokio::spawn(async move {
                 let mut rng = StdRng::seed_from_u64(seed ^ (i as u64) << 8);
                 let mut done: HashSet<String> = HashSet::new();
                 let idx = ValidatorIndex::new(i as u64);
+                // equivocating leader: highest block it has seen certified, windows already served
+                let mut best_parent: (Slot, alpenglow::crypto::merkle::BlockHash) =
+                    (Slot::genesis(), alpenglow::crypto::merkle::GENESIS_BLOCK_HASH);
+                let mut served: HashSet<u64> = HashSet::new();
                 loop {
                     let Ok(m) = net.receive().await else { break };
-                    if mode != "spam" {
+                    if mode == "silent" {
                         continue;
+                    }
+                    if mode == "equivocate" {
+                        // track certified blocks
+                        if let ConsensusMessage::Cert(c) = &m
+                            && let Some(h) = c.block_hash()
+                            && c.slot() > best_parent.0
+                        {
+                            best_parent = (c.slot(), h.clone());
+                        }
+                        // my next window, once the last block of the previous window is certified
+                        let seen_slot = match &m {
+                            ConsensusMessage::Cert(c) if c.block_hash().is_some() => c.slot().inner(),
+                            _ => u64::MAX - 1,
+                        };
+                        let window = (seen_slot + 1) / 4;
+                        if seen_slot % 4 == 3 && window % nval == i as u64 && served.insert(window) {
+                            let first = window * 4;
+                            let mut par_x = best_parent.clone();
+                            let mut par_y = best_parent.clone();
+                            let mut shredder = alpenglow::shredder::RegularShredder::default();
+                            use alpenglow::shredder::Shredder;
+                            for s in first..first + 4 {
+                                let mk = |tag: u8, par: &(Slot, alpenglow::crypto::merkle::BlockHash)| {
+                                    let tx = wincode::serialize(&Transaction(vec![tag, s as u8])).unwrap();
+                                    let data = wincode::serialize(&vec![tx]).unwrap();
+                                    alpenglow::types::Slice {
+                                        slot: Slot::new(s),
+                                        slice_index: serde_json::from_str("0").expect("slice index"),
+                                        is_last: true,
+                                        parent: Some(par.clone()),
+                                        data,
+                                    }
+                                };
+                                let sx = shredder.shred(&mk(1, &par_x), &leader_sk).expect("shred");
+                                let sy = shredder.shred(&mk(2, &par_y), &leader_sk).expect("shred");
+                                let hx: alpenglow::crypto::merkle::BlockHash =
+                                    alpenglow::crypto::merkle::DoubleMerkleTree::new([sx[0].slice_root()]).get_root();
+                                let hy: alpenglow::crypto::merkle::BlockHash =
+                                    alpenglow::crypto::merkle::DoubleMerkleTree::new([sy[0].slice_root()]).get_root();
+                                record(VerifEvent::Harness(
+                                    json!({"e": "ByzBlocks", "from": i, "s": s,
+                                           "x": hash_name(&names3, &hx), "y": hash_name(&names3, &hy)}).to_string(),
+                                ));
+                                for (j, a) in &shred_addrs {
+                                    let set = if j % 2 == 0 { &sx } else { &sy };
+                                    for sh in set.iter() {
+                                        let _ = snet.send(sh.as_shred(), *a).await;
+                                    }
+                                }
+                                par_x = (Slot::new(s), hx);
+                                par_y = (Slot::new(s), hy);
+                                tokio::time::sleep(Duration::from_millis(120)).await;
+                            }
+                        }
                     }
                     // equivocate on everything it hears about: for a slot/block seen in a vote,
                     // send every kind of vote, a different subset to every receiver
